@@ -2,6 +2,11 @@
 from .. import common as C, gen, build
 from ..check import Prop, Op
 from ..leafcommon import *
+from .. import gen_fnx
+from fractions import Fraction
+from ..common import F, fs, dy
+
+P_FNX = 0.25      # share of cases from vk/gen_fnx.py (function classes outside the Lean `Fn` embedding: oracle only)
 
 
 class C01(Prop):
@@ -18,15 +23,41 @@ class C01(Prop):
   bridge = ['DK.Bridge.hlq_cost', 'DK.Bridge.hlq_deriv', 'DK.Bridge.abc_cost', 'DK.Bridge.abc_deriv', 'DK.Bridge.abc_q']
   rule = ('random leaf of every shipped class x horizon n (1..8 quick, ..31 thorough) x bounds with zero-width slots x '
           'scalar/vector parameters x in-bounds flow (interior / on bounds / mixed) x scalar/vector price; non-trivial: n >= 2, '
-          'a flow strictly inside a non-zero-width slot and a non-zero curve parameter')
+          'a flow strictly inside a non-zero-width slot and a non-zero curve parameter; plus (oracle only) ADevice over the function classes outside the '
+          'Lean embedding: X2D of mixed scalar functions, Poly1D, InnerSumFunction variants, real-exponent ABCCost, numdifftools-based classes, '
+          'empty / single SumFunction')
   sizes = {'quick': 400, 'thorough': 12000}
   assumptions = ['oracle: central finite differences (h=1e-5) of the implementation cost, away from kinks']
 
+  def __init__(self):
+    self.stat = {}
+
+  def bump(self, k):
+    self.stat[k] = self.stat.get(k, 0) + 1
+
+  def extra_evidence(self):
+    return {'oracle_only_function_kinds': dict(self.stat)}
+
   def cases(self, rng, tier, count):
-    return [leaf_case(rng, tier) for _ in range(count)]
+    return [self.fnx_case(rng, tier) if rng.random() < P_FNX else leaf_case(rng, tier) for _ in range(count)]
+
+  def fnx_case(self, rng, tier):
+    """ADevice over the function classes the Lean `Fn` has no constructor for (X2D of mixed scalar functions, Poly1D,
+    InnerSumFunction variants, real-exponent ABCCost, the numdifftools-based classes, empty / single SumFunction):
+    ORACLE ONLY (finite differences of the implementation's own cost), no T2 op."""
+    n = rng.randint(1, 5) if rng.random() < 0.6 else gen.pick_n(rng, tier, 8 if tier == 'quick' else 12)
+    if rng.random() < 0.5:       # strictly positive box: entropy / temporal variance / Cobb-Douglas are defined there
+      lb = [dy(rng, Fraction(1, 2), 2) for _ in range(n)]; hb = [a + dy(rng, 0, 3) for a in lb]
+    else:
+      lb, hb = gen.gen_bounds(rng, n, sign=rng.choice([None, '+', '-']))
+    d = gen_fnx.fnx_case_dev(rng, n, lb, hb, n <= 4)
+    s = gen.gen_flow(rng, lb, hb, rng.choice(['interior', 'interior', 'mixed']))
+    return {'dev': d, 's': [fs(x) for x in s], 'p': gen.gen_price(rng, n), '_shape': rng.choice(['flat', 'flat', 'row']), 'fnx': True}
 
   def ops(self, case):
     d = case['dev']
+    if case.get('fnx'):
+      return []          # no model side
     dev = build.build_leaf(d)
     s = flow_arr(case); p = build.price(case['p'])
     s0 = gen.leaf_flow(__import__('random').Random(len(case['s'])), d, 'mixed')
@@ -37,9 +68,44 @@ class C01(Prop):
     ]
 
   def oracle(self, case):
+    d = case['dev']
+    if case.get('fnx'):
+      fx = d['prm']['fx']
+      for k in gen_fnx.kinds(fx):
+        self.bump('fnx kind ' + k)
+      if not gen_fnx.kink_free(fx, [F(x) for x in case['s']]):
+        return []
+      dev = gen_fnx.build_adevice(d)
+      s = build.arr(case['s']).astype(float); p = build.price(case['p'])
+      tag = '+'.join(sorted(gen_fnx.kinds(fx)))
+      bs = gen_fnx.exponents(fx)
+      try:
+        g = np().array(dev.deriv(flow_arr(case), p), dtype=float).reshape(-1)
+      except ZeroDivisionError:
+        if 'tvar' in gen_fnx.kinds(fx) or any(b < 1 for b in bs):
+          self.bump('singular point (tvar zero sum / exponent < 1 at q = 0): skipped')
+          return []        # TemporalVariance probes through a zero normalising sum (open C14 finding); q^(b-1) at q = 0 with b < 1
+        raise
+      except Exception as ex:
+        return [{'key': {'cls': 'ADevice', 'kind': 'deriv-raises', 'exc': type(ex).__name__, 'fn': tag},
+                 'detail': 'ADevice(%s).deriv raised %s: %s at the in-bounds flow s=%s' % (tag, type(ex).__name__, str(ex)[:80], case['s'])}]
+      try:
+        num = fd_grad(lambda x: dev.cost(x, p), s)
+      except Exception:
+        # the finite-difference stencil leaves the box (a flow on its bound): q < 0 under a real exponent is outside the cost's domain
+        self.bump('finite-difference stencil left the domain of the cost: skipped')
+        return []
+      if g.shape != num.shape:
+        return [{'key': {'cls': 'ADevice', 'kind': 'shape', 'fn': tag}, 'detail': 'ADevice(%s): deriv has %d entries for %d flow variables' % (tag, g.size, num.size)}]
+      tol = 2e-4 if gen_fnx.numeric(fx) else 2e-5
+      bad = np().abs(g - num) > tol*np().maximum(1, np().abs(num))
+      if bad.any():
+        i = int(np().argmax(bad))
+        return [{'key': {'cls': 'ADevice', 'kind': 'gradient', 'fn': tag},
+                 'detail': 'ADevice(%s): deriv[%d]=%.8g but d cost/d s[%d]=%.8g (finite difference) at s=%s p=%s' % (tag, i, g[i], i, num[i], case['s'], case['p'])}]
+      return []
     if not kink_free(case):
       return []
-    d = case['dev']
     dev = build.build_leaf(d)
     s = build.arr(case['s']); p = build.price(case['p'])
     g = np().array(dev.deriv(flow_arr(case), p), dtype=float).reshape(-1)
@@ -54,6 +120,8 @@ class C01(Prop):
     return []
 
   def nontrivial(self, case):
+    if case.get('fnx'):
+      return case['dev']['n'] >= 2
     return case['dev']['n'] >= 2 and has_curve(case['dev']) and interior_slot(case)
 
 
